@@ -129,6 +129,12 @@ MUTATIONS = {
                  new="_stdout_write = sys.stdout.write\n_lines_buffer = io.StringIO()\n"),
         ],
     ),
+    "c03-terminal-bg-hex-unpadded": dict(  # seeded/X9-s3: needs alpha "#" and a background component < 0x10
+        file="image/common.py", props=["C03"],
+        old='                    alpha = get_fg_bg_colors(hex=True)[1] or "#000000"\n',
+        new='                    _bg = get_fg_bg_colors()[1]\n'
+            '                    alpha = "#%x%x%x" % _bg if _bg else "#000000"\n',
+    ),
     "c03-kitty-whole-at-render-size": dict(
         file="image/kitty.py", props=["C03"],
         old="self._get_minimal_render_size()\n            if render_method == WHOLE",
